@@ -6,7 +6,8 @@
 // flat views' operator()(idx) -- are declared here for the abstract types, BEFORE the header (the calls are qualified, so they
 // are bound at the template's definition).  The body of assign_result that is verified is the real one.
 #include "nmtools/def.hpp"
-struct verif_out  { int buf[32]; nm_size_t n; };              // output: flat element k is buf[k]; n elements (n <= 32)
+struct verif_out  { int buf[32]; nm_size_t n;                 // output: flat element k is buf[k]; n elements (n <= 32)
+                    int* data() { return buf; } const int* data() const { return buf; } };   // (raw buffer, for code that goes through nmtools::data)
 struct verif_rhs  { int val[32]; };                           // result view: rhs(idx) is a pure function of idx (table)
 using verif_out_t = verif_out; using verif_rhs_t = verif_rhs;   // (top-level aliases become C typedefs in the generated C)
 struct verif_flat_out_t { verif_out_t* a;       int& operator()(nm_size_t i)       { return a->buf[i]; } };
@@ -41,3 +42,21 @@ a3_t verif_create_vector_fixed3(sv16_t src, nm_size_t dim)
 // per-thread assignment with abstract flat views: returns the output after the call
 verif_out_t verif_assign_result(verif_out_t out, verif_rhs_t rhs, ks_t thread_id, ks_t block_id, ks_t block_size)
 { na::assign_result(out, rhs, thread_id, block_id, block_size); return out; }
+
+// rebuild a read-only operand from its raw (pointer, shape pointer, dim) triple (bounded shape kind, DIM = 0): the shape of the rebuilt array
+#include "nmtools/utility/shape.hpp"
+struct ca_obs { sv_t shape; nm_size_t dim; bool ok; };
+using ca_obs_t = ca_obs;
+template <typename S> static inline void verif_fill(ca_obs& r, const S& s)
+{ r.ok = true; r.dim = nm::len(s); r.shape.resize(r.dim); for (nm_size_t i = 0; i < r.dim; i++) r.shape[i] = nm::at(s,i); }
+template <typename S> static inline void verif_fill(ca_obs& r, const std::optional<S>& s)
+{ r.ok = s.has_value(); if (r.ok) verif_fill(r, *s); }
+ca_obs verif_create_array_shape(sv16_t src, nm_size_t dim)
+{
+    const int cell[1] = {0};
+    auto a = na::create_array<0>(cell, src.data(), dim);
+    ca_obs r{};
+    verif_fill(r, nm::shape(a));
+    return r;
+}
+ca_obs verif_create_array_shape4(sv16_t src, nm_size_t dim) { return verif_create_array_shape(src, dim); }
